@@ -84,4 +84,35 @@ def validateInt (b : Bounds) (name : String) (n : Int) : Except Err Unit := vali
 def validatePt (b : Bounds) (name : String) (p : Pt) : Except Err Unit :=
   if name = "axes" then (if b.okAxes p then .ok () else .error .valueError) else .error .valueError
 
+/-! ### what the translated builder methods (`Gen/BuilderSrc.lean`) are written with -/
+
+/-- an enum argument as the API receives it (`SpinMode | str`): a member, or something `Enum(value)` rejects -/
+inductive Arg (α : Type) where
+  | val (a : α)
+  | bogus
+deriving DecidableEq, Repr
+
+/-- the pieces a statement is assembled from: the table entry of an enum member with its formatted words
+    (`_get_statement`), bare formatted words (`format.parameters`), a tool word (`T01`) -/
+inductive Part where
+  | instr (cls member : String) (ws : List (String × Rat))
+  | words (ws : List (String × Rat))
+  | tword (n : Int)
+deriving DecidableEq, Repr
+
+abbrev SStmt := List Part
+
+/-- `format.parameters(dict)` / the words of `format.command(instr, dict)`: a value that is no finite number raises
+    `ValueError` (`None`); keys keep their order -/
+def fmtWords : List (String × Val) → Option (List (String × Rat))
+  | [] => some []
+  | (k, v) :: rest =>
+    match v.fin?, fmtWords rest with
+    | some q, some ws => some ((k, q) :: ws)
+    | _, _ => none
+
+/-- `_get_statement(member, params)`: the member's table entry with the formatted words -/
+def getStatement (cls member : String) (ps : List (String × Val)) : Option SStmt :=
+  (fmtWords ps).map fun ws => [Part.instr cls member ws]
+
 end GscribModel.GenPrelude
